@@ -32,6 +32,13 @@ def run(tier, seed):
     for _ in range(2000 if th else 60):
         ds, r, tag = rrgen.easter_case(rnd, rnd.sample(range(-366, 367), rnd.randint(1, 3)), shifted=rnd.random() < 0.3)
         allc.append((ds, r, tag, rnd.choice([70, 130]), (2098, 12, 31)))
+    # long lists of offsets (a church calendar: 13 to 24 feasts between Septuagesima and Corpus Christi, Easter Sunday itself - offset 0 -
+    # among them more often than not): the set of offsets changes its storage with its size
+    for _ in range(400 if th else 40):
+        ns_ = set(rnd.sample(range(-63, 61), rnd.randint(13, 24)))
+        if rnd.random() < 0.7: ns_.add(0)
+        ds, r, tag = rrgen.easter_case(rnd, sorted(ns_), shifted=rnd.random() < 0.3)
+        allc.append((ds, r, tag + ':long', rnd.choice([130, 200]), (2098, 12, 31)))
     # day shifts: every N (thorough: x 6 base rules; quick: a slice x 1), business day shifts, zero forms, combined
     ns = list(range(-366, 367)) if th else sorted(set(list(range(-366, 367, 11)) + [-366, -365, -60, -59, -31, -30, -29, -28, -1, 1, 28, 29, 30, 31, 59, 60, 365, 366]))
     for n in ns:
